@@ -192,7 +192,7 @@ type mgen struct {
 	r *rand.Rand
 }
 
-var mNames = []string{"a", "B", "name", "Item_1", "été", "x9", "if_", "unlessX", "Ж"}
+var mNames = []string{"a", "B", "name", "Item_1", "été", "x9", "if_", "unlessX", "Ж", "\u212aelvin", "\u2c65b", "\u0130x", "\u017ft"}
 var mTexts = []string{"x", "Hello, ", " and ", "!", "a{b", "c}d", "{ x", "y }", "\n", "q\"r/\\", "'it's'", "# not a tag ^ /", "日本語 ", "}} stray"}
 var mValues = []string{"", "v", "\b", "a\fb", "\t", "/", "\\", "\"", "q\"/\n", "back\\slash\ttab\r\b\f", "<b>&amp;</b>", "Ünï", "{{x}}", " "}
 
@@ -433,6 +433,75 @@ func genC10(g *Gen) {
 				emitSmall([]*mnode{{kind: s1.kind, text: s1.text, kids: []*mnode{{kind: "text", text: "x"}, {kind: s2.kind, text: s2.text, kids: s2.kids}, {kind: "var", text: "a"}}}})
 			}
 		}
+	}
+	// (2b) scale and rare characters: long literal text, deep nesting, many nodes; text that begins / ends with unusual
+	// white space or rare code points at the edges of the template (only blank, tab, CR and LF are trimmed there)
+	tag := func(ls ...string) []mlex {
+		var o []mlex
+		for _, l := range ls {
+			switch l {
+			case "{{", "}}", "{{{", "}}}", "#", "^", "/", "!":
+				o = append(o, mlex{l, l})
+			case " ":
+				o = append(o, mlex{"ws", " "})
+			default:
+				o = append(o, mlex{"word", l})
+			}
+		}
+		return o
+	}
+	mp := []any{[]any{cps("a"), cps("v")}, []any{cps("b"), cps("")}}
+	run2 := func(gen string, lx []mlex) {
+		g.Run(gen, []Ev{{"op": "tmpl", "lex": lexAny(lx), "vars": mp, "wellformed": true, "caseseed": int(r.Int31())}})
+	}
+	for _, sz := range []int{63, 64, 65, 127, 128, 129, 130, 200, 255, 256, 257, 300, 1000, 1025, 4097} {
+		if sz > g.Pick(300, 5000) {
+			continue
+		}
+		for _, unit := range []string{"x", "ab ", "é", "{ ", "}\n", "日本", "\U0001f600"} {
+			long := "." + string([]rune(strings.Repeat(unit, sz))[:sz-2]) + "." // never a brace next to a tag
+			run2("long literal text", []mlex{{"text", long}})
+			run2("long literal text", append(append([]mlex{{"text", long}}, tag("{{", "a", "}}")...), mlex{"text", long}))
+			run2("long literal text", append(append(tag("{{", "#", "a", "}}"), mlex{"text", long}), tag("{{", "/", "a", "}}")...))
+			run2("long literal text", append(append(tag("{{", "^", "b", "}}", "{{", "a", "}}"), mlex{"text", long}), tag("{{{", "a", "}}}", "{{", "/", "b", "}}")...))
+		}
+		var deep, flat []mlex
+		for i := 0; i < sz && sz <= 1100; i++ {
+			deep = append(deep, tag("{{", []string{"#", "^"}[i%2], []string{"a", "b"}[i%2], "}}")...)
+			flat = append(flat, tag("{{", "a", "}}")...)
+			flat = append(flat, mlex{"text", "-"})
+		}
+		deep = append(deep, mlex{"text", "x"})
+		for i := sz - 1; i >= 0 && sz <= 1100; i-- {
+			deep = append(deep, tag("{{", "/", []string{"if", "unless", []string{"a", "b"}[i%2]}[i%3], "}}")...)
+		}
+		if sz <= 1100 {
+			deep2 := append([]mlex{}, deep...)
+			for i := range deep2 {
+				if deep2[i].kind == "word" && deep2[i].text == "a" && sz%3 != 0 {
+					deep2[i].text = "b" // an empty variable somewhere down the nesting
+					break
+				}
+			}
+			run2("deep nesting and many nodes", deep)
+			run2("deep nesting and many nodes", flat)
+			g.Run("deep nesting and many nodes", []Ev{{"op": "tmpl", "lex": lexAny(deep[:len(deep)-4]), "vars": mp, "wellformed": false, "caseseed": 1}})
+		}
+	}
+	for _, c := range rareRunes {
+		if c == 0 || c == '{' || c == '}' {
+			continue
+		}
+		cs := string(c)
+		run2("rare code points at the edges of the template and of text", []mlex{{"text", cs + "x" + cs}})
+		run2("rare code points at the edges of the template and of text", append(append([]mlex{{"text", cs + "x"}}, tag("{{", "a", "}}")...), mlex{"text", "y" + cs}))
+		run2("rare code points at the edges of the template and of text", append(append(tag("{{", "a", "}}"), mlex{"text", cs}), tag("{{", "a", "}}")...))
+		run2("rare code points at the edges of the template and of text", append(append(tag("{{", "#", "a", "}}"), mlex{"text", cs + " " + cs}), tag("{{", "/", "a", "}}")...))
+	}
+	for _, ws := range []string{"\v", "\f", "\u0085", "\u00a0", "\u2028", "\u2029", "\u3000", "\u200b", "\ufeff", "\u001f", "\u0001"} {
+		run2("unusual white space at the edges of the template", []mlex{{"text", ws + "x" + ws}})
+		run2("unusual white space at the edges of the template", append(append([]mlex{{"text", ws}}, tag("{{", "a", "}}")...), mlex{"text", ws}))
+		run2("unusual white space at the edges of the template", append([]mlex{{"text", ws + ws}}, tag("{{{", "a", "}}}")...))
 	}
 	// (3) every lexeme string up to a bound: the accept / reject decision
 	alpha := []mlex{{"text", "x"}, {"ws", " "}, {"{{", "{{"}, {"{{{", "{{{"}, {"}}", "}}"}, {"}}}", "}}}"}, {"#", "#"}, {"^", "^"}, {"/", "/"}, {"!", "!"}, {"word", "a"}, {"word", "if"}}
